@@ -12,7 +12,7 @@ from .c03 import snapshot, leftover
 
 ID = 'C17'
 LEVEL = 'fault_enumeration'
-RULE = ('queries {finite flat facts; a fact whose second argument is a 60-element list (the limit strikes inside the element-by-element match, after the first argument was bound) - compiled and as a dynamic fact, against ground lists and lists of variables; len/2 on lists of length 5, 20, 60; app/3 splitting a list; nat/1 and even/odd '
+RULE = ('queries {a findall over 300 facts (the builtin holds the query while the answer is delivered); finite flat facts; a fact whose second argument is a 60-element list (the limit strikes inside the element-by-element match, after the first argument was bound) - compiled and as a dynamic fact, against ground lists and lists of variables; len/2 on lists of length 5, 20, 60; app/3 splitting a list; nat/1 and even/odd '
         '(infinitely many answers, each deeper); left recursion lp(X) :- lp(X). lp(a). (diverges before any answer); a '
         'rule with a deep failing branch between answers; registered Python predicates whose clean-up (finally) code needs 0, 3, 12 or 30 nested calls, queried directly and through call/1; predicates answered from two sources (dynamic facts followed by compiled clauses, dynamic facts followed by a Python predicate); a Python predicate that yields True; a dynamic fact with a variable 12 levels deep (after every call two uses of it at once must still be independent)} x EVERY recursion_limit from 8 to 400 (each value moves the '
         'point at which the limit strikes; quick: every value up to 89, then every 14th) x projection functions {identity, observe the variables, '
@@ -49,6 +49,9 @@ PROGRAM = [
     # a use of the fact vfact(s^12(_)) twice at once, with different bindings (run AFTER a bounded call,
     # as a probe that the engine is what it was)
     (A('vboth'), conj(call(F('vfact', V('Pa'))), call(F('vfact', V('Pb'))), call(F('=', V('Pa'), DEEP(A('a')))), call(F('=', V('Pb'), DEEP(A('b')))))),
+    # a findall whose bag has 300 elements (a builtin that itself holds the query while the answer is delivered)
+    (F('all300', V('Lb')), call(F('findall', X, F('n300', X), V('Lb')))),
+] + [(F('n300', C(i)), None) for i in range(300)] + [
     (F('deep', A('first')), None), (F('deep', X), conj(call(F('len', V('Lg'), F('s', F('s', F('s', A('z')))))), call(F('nat', X)))),
 ]
 
@@ -108,17 +111,18 @@ def queries():
         [('big-dynamic', F('bigd', V('Q'), lst(60))), ('big-variables', F('big', V('Q'), L([V('E%d' % i) for i in range(60)]))),
          ('big-dynamic-variables', F('bigd', V('Q'), L([V('E%d' % i) for i in range(45)], V('Et')))),
          ('big', F('big', V('Q'), lst(60))), ('big-tail', F('big', V('Q'), L([C(i) for i in range(30)], V('Q2')))), ('same', F('eqq', lst(60), lst(60)))] + \
-        [('mixed-sources', F('mixd', V('Q'))), ('python-yielding-true', F('pyt3', V('Q'))), ('variable-fact', F('vfact', V('Q')))] + [('pyg%d' % d, F('pyg%d' % d, V('Q'))) for d in PY_DEPTHS] + [('call-pyg12', F('call', F('pyg12', V('Q'))))]
+        [('findall-300', F('all300', V('Q'))), ('mixed-sources', F('mixd', V('Q'))), ('python-yielding-true', F('pyt3', V('Q'))), ('variable-fact', F('vfact', V('Q')))] + [('pyg%d' % d, F('pyg%d' % d, V('Q'))) for d in PY_DEPTHS] + [('call-pyg12', F('call', F('pyg12', V('Q'))))]
 
 
 def bounds(tier):
-    return {'recursion_limits': 'every value 8..89 and every 14th of 90..400' if tier == 'quick' else 'every value 8..400'}
+    return {'recursion_limits': 'every value 8..89, every 14th of 90..400, and 650, 800, 900' if tier == 'quick' else 'every value 8..400 and 650, 800, 900'}
 
 
 def limits(tier):
+    # ... and three bounds near the interpreter's own limit (a bag of 300 elements only fits under those)
     if tier == 'quick':
-        return list(range(8, 90)) + list(range(90, 401, 14))
-    return list(range(8, 401))
+        return list(range(8, 90)) + list(range(90, 401, 14)) + [650, 800, 900]
+    return list(range(8, 401)) + [650, 800, 900]
 
 
 class ProjErr(ValueError):
